@@ -529,3 +529,19 @@ package tchannel
 //@   label the-filter-does-not-depend-on-the-connection-state
 //@   atcall readState false
 //@   property C14
+
+// "the caller's own wait ends with a timeout or cancelled error accordingly":
+// OwnEnd(mex, e): e is nil, the exchange's latched error, or the error of the
+// call's own context mapped faithfully -- timeout only for an expired deadline,
+// cancelled only for a cancelled context. A writer that gives up, and the
+// check it makes before each flush, report nothing else.
+//@ pred OwnEnd(mex *messageExchange, e error) := e == nil || e == mex.errCh.err || (ctxerr(mex.ctx) != nil &&
+//@        ((e == ErrTimeout && ctxerr(mex.ctx) == context.DeadlineExceeded) || (e == ErrRequestCancelled && ctxerr(mex.ctx) == context.Canceled) || e == ctxerr(mex.ctx)))
+//@ func (mex *messageExchange) checkError() (err error)
+//@   label reports-the-calls-own-end
+//@   ensures OwnEnd(mex, err)
+//@   property C14
+//@ func (w *reqResWriter) flushFragment(fragment *writableFragment) (err error)
+//@   label writer-gives-up-with-the-calls-own-reason
+//@   atcall failed OwnEnd(w.mex, arg1)
+//@   property C14
